@@ -353,9 +353,95 @@ def r6_def_installs_the_value(ctx):
                "" if ok else f"bind_root(val) is skipped under `{P.un((bad or extra)[0])}`: a redefinition with an equal-but-distinct value leaves the Var's root stale while the module global changes")
 
 
+CORE = "src/basilisp/core.lpy"
+
+
+@rule("C10.R8", floor=1)
+def r8_core_intern_binds_the_interned_var(ctx):
+    """basilisp.core/intern with a value binds the root of the Var that Namespace.intern *returns*
+    (the one already interned under the name, if any), not of the fresh Var it offered."""
+    from .. import lispread as L
+    d = L.top_defs(ctx.lisp(CORE)).get("intern")
+    if d is None:
+        raise AnalysisError("anchor vanished: core.lpy::intern")
+    for params, body in L.fn_arities(d):
+        if len(params.items) != 3:
+            continue
+        binds = [f for b in body for f in L.walk(b) if L.head(f) == ".bind-root"]
+        if not binds:
+            ctx.ob("C10.R8", f"{CORE}::intern [ns name val]::binds the root", CORE, d.line, False, "intern with a value never binds a root")
+            continue
+        tgt = binds[0].items[1]
+        ok = False
+        if isinstance(tgt, L.Sym):
+            for b in body:
+                for f in L.walk(b):
+                    if L.head(f) in ("let", "let*") and isinstance(f.items[1], L.Vec):
+                        for nm, init in zip(f.items[1].items[0::2], f.items[1].items[1::2]):
+                            if L.is_sym(nm, tgt.val):
+                                ok = any(L.head(x) == ".intern" for x in L.walk(init))
+        elif isinstance(tgt, L.List):
+            ok = any(L.head(x) == ".intern" for x in L.walk(tgt))
+        ctx.ob("C10.R8", f"{CORE}::intern [ns name val]::bind-root on the Var returned by the namespace", CORE, binds[0].line, ok,
+               "" if ok else "the root is bound on the freshly created Var; when a Var of that name exists the namespace returns the old one, whose root never changes",
+               witness="(def ^:redef r 1) (intern 'my.ns 'r 5) r must be 5")
+
+
+@rule("C10.R7", floor=2)
+def r7_bare_global_names_cannot_be_captured_by_locals(ctx):
+    """A Var of the current namespace may be compiled to a bare Python global name only if no local
+    in scope has that Python name.  Function parameters keep their munged source names (so that
+    Python callers can pass them by keyword), hence either the direct-link path consults the
+    symbol table before it emits the bare name and falls back to the Var otherwise, or every
+    parameter name is generated fresh.  Without either, a qualified reference -- what syntax-quote
+    writes into every macro template -- inside (fn [helper] ...) reads the parameter: macro
+    hygiene and 'one name, one binding' both fail."""
+    from ..pycfg import CFG
+    tree = ctx.py(GEN)
+    dl = P.find_def(tree, "__var_direct_link_to_py_ast")
+    fa = P.find_def(tree, "__fn_args_to_py_ast")
+    if dl is None or fa is None:
+        raise AnalysisError("anchor vanished: generator.__var_direct_link_to_py_ast / __fn_args_to_py_ast")
+    # (B) parameters always fresh?
+    gens = [a for a in ast.walk(fa) if isinstance(a, ast.Assign) and P.un(a.targets[0]) == "arg_name" and isinstance(a.value, ast.Call) and P.un(a.value.func) == "genname"]
+    always_fresh = any(not any(isinstance(x, ast.If) for x in P.ancestors(a) if P.contains(fa, x) and x is not fa) for a in gens)
+    ctx.ob("C10.R7", f"{GEN}::__fn_args_to_py_ast::parameters keep their munged source names (fresh only on request): {not always_fresh}", GEN, fa.lineno, True,
+           "informational: decides which of the two protections is required")
+    # (A) the bare-name return is guarded by a symbol-table test on the same name
+    g = CFG(dl)
+    bare = [nd for nd in g.nodes if nd.kind == "stmt" and isinstance(nd.ast, ast.Return) and nd.ast.value is not None
+            and any(isinstance(c, ast.Call) and P.un(c.func) == "ast.Name" and any(k.arg == "id" for k in c.keywords) for c in ast.walk(nd.ast.value))]
+    if not bare:
+        raise AnalysisError("anchor vanished: the bare ast.Name return of __var_direct_link_to_py_ast")
+    for nd in bare:
+        call = next(c for c in ast.walk(nd.ast.value) if isinstance(c, ast.Call) and P.un(c.func) == "ast.Name")
+        name = P.un(next(k.value for k in call.keywords if k.arg == "id"))
+
+        def guard(a, b, lab, name=name):
+            if a.kind != "test" or lab is not False:
+                return False
+            return any(isinstance(c, ast.Call) and "symbol_table" in P.un(c.func) and any(P.un(x) == name for x in c.args) for c in ast.walk(a.ast))
+        guarded = g.edge_dominated(nd, guard)
+        ok = guarded or always_fresh
+        ctx.ob("C10.R7", f"{GEN}::__var_direct_link_to_py_ast::bare `{name}` only when no local has that Python name", GEN, nd.line, ok,
+               "" if ok else f"a Var of the current namespace is emitted as the bare global `{name}` without consulting the symbol table, while fn parameters keep their source names: (defmacro m [] `(helper 1)) (defn g [helper] (m)) calls the argument",
+               witness="(def x 1) ((fn [x] my.ns/x) 2) must be 1")
+
+
 _GEN_NST ="        with old_st.new_frame(name, is_context_boundary) as st:\n            self._st.append(st)\n            try:\n                yield st\n            finally:\n                self._st.pop()\n"
 
 SELFTEST = [
+    {"name": "intern binds the fresh Var (the repaired defect)", "file": CORE, "expect": "C10.R8",
+     "old": "         v  (->> (basilisp.lang.runtime/Var ns name ** :meta {:ns ns :name name})\n                 (.intern ns name))]\n     (.bind-root v val)\n     v)))",
+     "new": "         v  (basilisp.lang.runtime/Var ns name ** :meta {:ns ns :name name})]\n     (.bind-root v val)\n     (.intern ns name v))))"},
+    {"name": "bare global emitted without asking the symbol table (the repaired defect)", "file": GEN, "expect": "C10.R7",
+     "old": "            if ctx.symbol_table.is_local_python_name(safe_name):\n                return None\n", "new": ""},
+    {"name": "guard inverted", "file": GEN, "expect": "C10.R7",
+     "old": "            if ctx.symbol_table.is_local_python_name(safe_name):\n                return None\n            return GeneratedPyAST(node=ast.Name(id=safe_name, ctx=py_var_ctx))\n",
+     "new": "            if ctx.symbol_table.is_local_python_name(safe_name):\n                return GeneratedPyAST(node=ast.Name(id=safe_name, ctx=py_var_ctx))\n            return None\n"},
+    {"name": "twin: guard written as the positive branch", "file": GEN, "expect": None,
+     "old": "            if ctx.symbol_table.is_local_python_name(safe_name):\n                return None\n            return GeneratedPyAST(node=ast.Name(id=safe_name, ctx=py_var_ctx))\n",
+     "new": "            if not ctx.symbol_table.is_local_python_name(safe_name):\n                return GeneratedPyAST(node=ast.Name(id=safe_name, ctx=py_var_ctx))\n            return None\n"},
     {"name": "new colliding munge entry", "file": UTIL, "expect": "C10.R1",
      "old": "    \"%\": \"__PCT__\",\n", "new": "    \"%\": \"__PCT__\",\n    \"~\": \"__PCT__\",\n"},
     {"name": "munge entry whose image is a plain identifier fragment", "file": UTIL, "expect": "C10.R1",
